@@ -580,7 +580,7 @@ pub(crate) fn run(s: &Scenario) -> Outcome {
                 if *guarded && factory.is_full() {
                     // the select loop does not pull from the channel while the factory is full
                     r.trace.ev(&format!("push#{id} deferred: is_full"));
-                    r.stats.probe("push_deferred_is_full");
+                    r.stats.probe("A.push_deferred_is_full");
                     r.abs("defer");
                 } else {
                     let spec = TxSpec {
@@ -612,10 +612,10 @@ pub(crate) fn run(s: &Scenario) -> Outcome {
                     match (&res, verdict) {
                         (Ok(()), Verdict::Fits | Verdict::Flush) => {
                             if verdict == Verdict::Flush {
-                                r.stats.probe("flush_to_finished");
+                                r.stats.probe("A.flush_to_finished");
                             }
                             if size == r.model.remaining() {
-                                r.stats.probe("push_fills_exactly");
+                                r.stats.probe("A.push_fills_exactly");
                             }
                             let mtx = MTx {
                                 key,
@@ -675,11 +675,11 @@ pub(crate) fn run(s: &Scenario) -> Outcome {
                                 break 'ops;
                             }
                             match v {
-                                Verdict::Oversize => r.stats.probe("refused_oversize"),
-                                Verdict::NoRoom => r.stats.probe("refused_queue_full"),
+                                Verdict::Oversize => r.stats.probe("A.refused_oversize"),
+                                Verdict::NoRoom => r.stats.probe("A.refused_queue_full"),
                                 // permitted by the property (queue is full) though the tx would
                                 // have fitted: not what the FIFO does, so later bundles will differ
-                                _ => r.stats.probe("refused_queue_full_but_fits"),
+                                _ => r.stats.probe("A.refused_queue_full_but_fits"),
                             }
                             r.abs("ref");
                         }
@@ -703,7 +703,7 @@ pub(crate) fn run(s: &Scenario) -> Outcome {
                     }
                     (Some(b), Some(p)) => {
                         finished_pops += 1;
-                        r.stats.probe("finished_pop");
+                        r.stats.probe("A.finished_pop");
                         r.check_bundle("next_finished", &b, &p);
                         r.abs("popf");
                     }
@@ -734,7 +734,7 @@ pub(crate) fn run(s: &Scenario) -> Outcome {
                         format!("next_finished().is_some() = {some}, model has {} finished", r.model.finished.len()),
                     );
                 }
-                r.stats.probe("peek_dropped");
+                r.stats.probe("A.peek_dropped");
                 r.abs("peek");
             }
             Op::PopNow => {
@@ -749,12 +749,12 @@ pub(crate) fn run(s: &Scenario) -> Outcome {
                 };
                 if from_finished {
                     finished_pops += 1;
-                    r.stats.probe("pop_now_took_finished");
+                    r.stats.probe("A.pop_now_took_finished");
                 } else if !predicted.is_empty() {
                     preempt_nonempty += 1;
-                    r.stats.probe("timer_preempted_current");
+                    r.stats.probe("A.timer_preempted_current");
                 } else {
-                    r.stats.probe("pop_now_empty");
+                    r.stats.probe("A.pop_now_empty");
                 }
                 r.check_bundle("pop_now", &got, &predicted);
                 r.abs("now");
@@ -797,7 +797,7 @@ pub(crate) fn run(s: &Scenario) -> Outcome {
             if empty || !r.viol.is_empty() {
                 break;
             }
-            r.stats.probe("drained_bundle");
+            r.stats.probe("A.drained_bundle");
             rounds += 1;
             if rounds > s.cfg.capacity + s.ops.len() + 4 {
                 r.violation("drain-unbounded", "drain", "pop_now() keeps returning bundles".into());
@@ -817,8 +817,8 @@ pub(crate) fn run(s: &Scenario) -> Outcome {
         }
     }
 
-    r.stats.probe_n("txs_accepted", r.accepted.len() as u64);
-    r.stats.probe_n("txs_refused", refusals);
+    r.stats.probe_n("A.txs_accepted", r.accepted.len() as u64);
+    r.stats.probe_n("A.txs_refused", refusals);
     if preempt_nonempty > 0 && finished_pops > 0 && refusals > 0 {
         r.stats.mark_nontrivial(PROP);
     }
